@@ -129,10 +129,11 @@ Lemma w_to_chk : forall m b c, w_to (chk m b c) = w_to m. Proof. intros m b c; d
 Lemma w_entry_chk : forall m b c, w_entry (chk m b c) = w_entry m. Proof. intros m b c; destruct b; reflexivity. Qed.
 Global Hint Rewrite a_stale_chk ran_chk a_rwp_chk w_call_chk w_to_chk w_entry_chk : monq.
 
-Ltac qproj := unfold on_call, close_iteration;
+Ltac qproj1 :=
   cbn [a_stale ran a_rwp w_call w_to w_entry a_fd a_fh a_ck a_tm a_exp a_tk a_ev a_evp a_rw a_main a_quit a_clk
        m_fds m_tms m_tks m_evs m_rws m_loop m_wait m_iter m_spin];
   autorewrite with monq monp.
+Ltac qproj := unfold on_call, close_iteration; repeat (progress qproj1).
 
 Lemma a_stale_on_call : forall m, a_stale (on_call m) = a_stale m. Proof. intros; qproj; reflexivity. Qed.
 Lemma ran_on_call : forall m, ran (on_call m) = ran m. Proof. intros; qproj; reflexivity. Qed.
